@@ -456,16 +456,17 @@ def cti_rules(F, R):
         elif leaf == ('some', lit(0.0)):
             zero_else = True
     # the only data the answer may branch on are the two variance guards: {both > 0 -> r; otherwise -> 0}
-    from .e3_bounds import Bounds, structural_cond
+    from .e3_bounds import Bounds, structural_cond, data_driven_int_cells, mentions_cells, field_types
     ctx_ = Bounds(F, v).ctx(m.last_vg)
+    ddc = data_driven_int_cells(m, field_types(F, v))
     gx, gy = comm(op('gt', vx, lit(0.0))), comm(op('gt', vy, lit(0.0)))
 
     def data_atoms(c, out):
         if c[0] == 'op' and c[1] in ('and', 'or', 'not'):
             for y in c[2]:
                 data_atoms(y, out)
-        elif not structural_cond(c, ctx_):
-            out.append(c)
+        elif not structural_cond(c, ctx_) or mentions_cells(c, ddc):
+            out.append(c)      # (a test of a data-driven counter, e.g. a run length, is a data condition)
         return out
     extra = None
     for conds, leaf in cases(ret):
